@@ -224,9 +224,9 @@ Proof. induction 1; simpl; [constructor|]. apply Forall_app. now split. Qed.
 Lemma difference_good d o ps d' : Good d -> difference d o ps = Some d' -> Good d'.
 Proof.
   intros Hd H. unfold difference in H.
-  match type of H with match ?s with _ => _ end = _ => destruct s as [[sidx oidx]|] eqn:Esel end; [|discriminate].
+  destruct (diff_sel d o ps) as [[sidx oidx]|] eqn:Esel; [|discriminate].
   assert (Hlen : length oidx = length sidx).
-  { destruct ps as [|p ps'].
+  { unfold diff_sel in Esel. destruct ps as [|p ps'].
     - destruct (Nat.eqb (num_obs d) (num_obs o)); [|discriminate]. now inversion Esel; subst.
     - destruct (index_keys d (p :: ps')); [|discriminate]. destruct (index_keys o (p :: ps')); [|discriminate].
       inversion Esel; subst. now rewrite !map_length. }
@@ -583,3 +583,266 @@ Proof.
   intros ix d o. split; [exact (take_all_lookup ix d o)|]. split; [reflexivity|]. intro ob. split; reflexivity.
 Qed.
 
+
+(* ------------------------------------------------------------------ the key cells of difference: Leibniz equality *)
+Lemma list_eqb_eq A (e : A -> A -> bool) :
+  (forall x y, e x y = true <-> x = y) -> forall a b, list_eqb e a b = true <-> a = b.
+Proof.
+  intros He a. induction a as [|x a IH]; intros [|y b]; simpl; split; intro H; try reflexivity; try discriminate.
+  - apply andb_prop in H. destruct H as [H1 H2]. apply He in H1. apply IH in H2. now subst.
+  - inversion H; subst. apply andb_true_intro. split; [now apply He|now apply IH].
+Qed.
+
+Lemma dy_eqb_iff x y : dy_eqb x y = true <-> x = y.
+Proof. split; [apply dy_eqb_eq|intros ->; apply dy_eqb_refl]. Qed.
+
+Lemma bool_eqb_iff x y : Bool.eqb x y = true <-> x = y.
+Proof. split; [apply eqb_prop|intros ->; apply eqb_reflx]. Qed.
+
+Lemma payload_eqb_eq a b : payload_eqb a b = true <-> a = b.
+Proof.
+  destruct a as [x|x|x], b as [y|y|y]; simpl; try (split; intro H; discriminate).
+  - rewrite (list_eqb_eq _ dy_eqb dy_eqb_iff). split; [now intros ->|now inversion 1].
+  - rewrite (list_eqb_eq _ String.eqb String.eqb_eq). split; [now intros ->|now inversion 1].
+  - rewrite (list_eqb_eq _ Bool.eqb bool_eqb_iff). split; [now intros ->|now inversion 1].
+Qed.
+
+Lemma tuple_eqb_eq a b : tuple_eqb a b = true <-> a = b.
+Proof. apply list_eqb_eq. exact payload_eqb_eq. Qed.
+
+(* difference(index_by = ps): row sidx[k] of self and row oidx[k] of other carry the same index tuple cm[k]; the
+   tuples cm are exactly the tuples occurring in both datasets, each once, each paired at its first occurrence *)
+Lemma diff_sel_spec d o p ps sidx oidx :
+  diff_sel d o (p :: ps) = Some (sidx, oidx) ->
+  exists ks ko cm,
+    index_keys d (p :: ps) = Some ks /\ index_keys o (p :: ps) = Some ko /\
+    NoDup cm /\ (forall t, In t cm <-> In t ks /\ In t ko) /\
+    sidx = map (fun t => first_index tuple_eqb t ks) cm /\
+    oidx = map (fun t => first_index tuple_eqb t ko) cm /\
+    (forall t, In t cm ->
+       nth (first_index tuple_eqb t ks) ks [] = t /\ first_index tuple_eqb t ks < length ks /\
+       nth (first_index tuple_eqb t ko) ko [] = t /\ first_index tuple_eqb t ko < length ko /\
+       (forall k, k < first_index tuple_eqb t ks -> nth k ks [] <> t) /\
+       (forall k, k < first_index tuple_eqb t ko -> nth k ko [] <> t)).
+Proof.
+  unfold diff_sel. destruct (index_keys d (p :: ps)) as [ks|]; [|discriminate].
+  destruct (index_keys o (p :: ps)) as [ko|]; [|discriminate].
+  intro H. inversion H; subst; clear H.
+  set (cm := map fst (isort tuple_leb (enumerate (common tuple_eqb ks ko)))).
+  assert (Hp : Permutation (common tuple_eqb ks ko) cm).
+  { unfold cm. rewrite <- (enumerate_fst (common tuple_eqb ks ko)) at 1.
+    apply Permutation_map. apply isort_perm. }
+  assert (Hin : forall t, In t cm <-> In t ks /\ In t ko).
+  { intro t. rewrite <- (common_spec tuple_eqb tuple_eqb_eq ks ko t). split; intro Ht.
+    - eapply Permutation_in; [apply Permutation_sym; exact Hp|exact Ht].
+    - eapply Permutation_in; [exact Hp|exact Ht]. }
+  exists ks, ko, cm.
+  split; [reflexivity|]. split; [reflexivity|].
+  split; [eapply Permutation_NoDup; [exact Hp|]; apply (common_NoDup tuple_eqb tuple_eqb_eq)|].
+  split; [exact Hin|]. split; [reflexivity|]. split; [reflexivity|].
+  intros t Ht. apply Hin in Ht. destruct Ht as [Ha Hb].
+  destruct (first_index_nth tuple_eqb tuple_eqb_eq t ks [] Ha) as [H1 H2].
+  destruct (first_index_nth tuple_eqb tuple_eqb_eq t ko [] Hb) as [H3 H4].
+  split; [exact H1|]. split; [exact H2|]. split; [exact H3|]. split; [exact H4|]. split.
+  - intros k Hk. exact (@first_index_first _ tuple_eqb tuple_eqb_eq t ks [] k Hk).
+  - intros k Hk. exact (@first_index_first _ tuple_eqb tuple_eqb_eq t ko [] k Hk).
+Qed.
+
+(* ------------------------------------------------------------------ the stable sort is unique *)
+Lemma merge_sort_unique_l keys s :
+  StronglySorted (le_pair dy_leb) s ->
+  (forall k, sel dy_leb k s = sel dy_leb k (enumerate keys)) ->
+  s = isort dy_leb (enumerate keys) /\ map snd s = stable_argsort dy_leb keys.
+Proof.
+  intros Ss Hs. assert (E : s = isort dy_leb (enumerate keys)).
+  { apply isort_unique; [apply dy_leb_total|apply dy_leb_trans|assumption|assumption]. }
+  split; [exact E|]. now rewrite E.
+Qed.
+
+(* ------------------------------------------------------------------ the memo walk *)
+Section Walk.
+  Variable f : obj -> obj.
+  Variable old : list (nat * obj).
+
+  Definition dom (w : wst) : list nat := map fst (wmemo w).
+
+  Definition ref_ok (w : wst) (ar r : string * nat) : Prop := fst r = fst ar /\ In (snd ar, snd r) (wmemo w).
+
+  Definition Inv (w : wst) : Prop :=
+    NoDup (dom w) /\
+    (forall o n, In (o, n) (wmemo w) -> n < wnext w) /\
+    (forall n ob, In (n, ob) (wnew w) -> n < wnext w) /\
+    NoDup (map snd (wmemo w)) /\
+    NoDup (map fst (wnew w)) /\
+    (forall o n, In (o, n) (wmemo w) ->
+       exists ob rs, lookup o old = Some ob /\ In (n, set_refs (f ob) rs) (wnew w) /\
+                     Forall2 (ref_ok w) (orefs ob) rs).
+
+  Definition Ext (w w' : wst) : Prop :=
+    incl (wmemo w) (wmemo w') /\ incl (wnew w) (wnew w') /\ wnext w <= wnext w'.
+
+  Definition Keeps (path : list nat) (w w' : wst) : Prop :=
+    forall p, In p path -> ~ In p (dom w) -> ~ In p (dom w').
+
+  Lemma Ext_refl w : Ext w w.
+  Proof. repeat split; auto using incl_refl. Qed.
+
+  Lemma Ext_trans a b c : Ext a b -> Ext b c -> Ext a c.
+  Proof. intros [A1 [A2 A3]] [B1 [B2 B3]]. repeat split; eauto using incl_tran. lia. Qed.
+
+  Lemma ref_ok_ext w w' rl rs : Ext w w' -> Forall2 (ref_ok w) rl rs -> Forall2 (ref_ok w') rl rs.
+  Proof.
+    intros [E _] H. eapply Forall2_impl; [|exact H]. intros a b [H1 H2]. split; [assumption|now apply E].
+  Qed.
+
+  Lemma lookup_None_notin A k (l : list (nat * A)) : lookup k l = None -> ~ In k (map fst l).
+  Proof.
+    induction l as [|[k' v] l IH]; simpl; [tauto|]. destruct (Nat.eqb k k') eqn:E; [discriminate|].
+    apply Nat.eqb_neq in E. intros H [Hc|Hc]; [congruence|now apply IH].
+  Qed.
+
+  (* what one (recursive) call must guarantee *)
+  Definition Good_rec (path : list nat) (rec : wst -> nat -> option (wst * nat)) : Prop :=
+    forall w o w' n, Inv w -> rec w o = Some (w', n) ->
+      Inv w' /\ Ext w w' /\ In (o, n) (wmemo w') /\ Keeps path w w'.
+
+  Lemma walk_list_ok path rec : Good_rec path rec ->
+    forall rl w w' rs, Inv w -> walk_list rec rl w = Some (w', rs) ->
+      Inv w' /\ Ext w w' /\ Forall2 (ref_ok w') rl rs /\ Keeps path w w'.
+  Proof.
+    intros Hrec rl. induction rl as [|ar rl IH]; intros w w' rs Hi H; simpl in H.
+    - inversion H; subst. split; [exact Hi|]. split; [apply Ext_refl|]. split; [constructor|].
+      intros p _ Hp; exact Hp.
+    - destruct (rec w (snd ar)) as [[w1 n]|] eqn:E1; [|discriminate].
+      destruct (walk_list rec rl w1) as [[w2 rs']|] eqn:E2; [|discriminate].
+      inversion H; subst; clear H.
+      destruct (Hrec _ _ _ _ Hi E1) as [Hi1 [X1 [In1 K1]]].
+      destruct (IH _ _ _ Hi1 E2) as [Hi2 [X2 [F2 K2]]].
+      split; [exact Hi2|]. split; [eapply Ext_trans; eauto|]. split.
+      + constructor; [|exact F2]. split; [reflexivity|]. simpl. destruct X2 as [X2 _]. now apply X2.
+      + intros p Hp Hn. apply (K2 p Hp). now apply (K1 p Hp).
+  Qed.
+
+  Lemma walk_ok fuel : forall path, Good_rec path (walk fuel f old path).
+  Proof.
+    induction fuel as [|fu IH]; intros path w o w' n Hi H; simpl in H; [discriminate|].
+    destruct (lookup o (wmemo w)) as [m|] eqn:El.
+    - inversion H; subst. split; [exact Hi|]. split; [apply Ext_refl|]. split; [now apply lookup_In|].
+      intros p _ Hp; exact Hp.
+    - destruct (existsb (Nat.eqb o) path) eqn:Ep; [discriminate|].
+      destruct (lookup o old) as [ob|] eqn:Eo; [|discriminate].
+      destruct (walk_list (walk fu f old (o :: path)) (orefs ob) w) as [[w1 rs]|] eqn:Ew; [|discriminate].
+      inversion H; subst; clear H.
+      destruct (walk_list_ok (o :: path) _ (IH (o :: path)) _ _ _ _ Hi Ew) as [Hi1 [X1 [F1 K1]]].
+      assert (Hno : ~ In o (dom w1)).
+      { apply (K1 o); [now left|]. now apply lookup_None_notin. }
+      destruct Hi1 as [N1 [B1 [B2 [N2 [N3 C1]]]]].
+      set (wf := mkW ((o, wnext w1) :: wmemo w1) ((wnext w1, set_refs (f ob) rs) :: wnew w1) (S (wnext w1))).
+      assert (Xf : Ext w1 wf). { repeat split; simpl; auto using incl_tl, incl_refl. }
+      split; [|split; [|split]].
+      + split; [|split; [|split; [|split; [|split]]]]; simpl.
+        * constructor; assumption.
+        * intros o' n' [Heq|Hin]; [inversion Heq; lia|]. specialize (B1 _ _ Hin). lia.
+        * intros n' ob' [Heq|Hin]; [inversion Heq; lia|]. specialize (B2 _ _ Hin). lia.
+        * constructor; [|assumption]. intro Hc. apply in_map_iff in Hc. destruct Hc as [[o' n'] [Hn Hin]].
+          simpl in Hn. subst n'. specialize (B1 _ _ Hin). lia.
+        * constructor; [|assumption]. intro Hc. apply in_map_iff in Hc. destruct Hc as [[n' ob'] [Hn Hin]].
+          simpl in Hn. subst n'. specialize (B2 _ _ Hin). lia.
+        * intros o' n' [Heq|Hin].
+          -- inversion Heq; subst. exists ob, rs. split; [assumption|]. split; [now left|].
+             eapply ref_ok_ext; [exact Xf|exact F1].
+          -- destruct (C1 _ _ Hin) as [ob' [rs' [L1 [L2 L3]]]]. exists ob', rs'.
+             split; [assumption|]. split; [now right|]. eapply ref_ok_ext; [exact Xf|exact L3].
+      + eapply Ext_trans; [exact X1|exact Xf].
+      + simpl. now left.
+      + intros p Hp Hn. simpl. intros [Heq|Hc].
+        * subst p. assert (Ht : existsb (Nat.eqb o) path = true).
+          { apply existsb_exists. exists o. split; [assumption|apply Nat.eqb_refl]. }
+          congruence.
+        * revert Hc. apply (K1 p); [now right|assumption].
+  Qed.
+End Walk.
+
+Lemma Inv_init f old nx : Inv f old (mkW [] [] nx).
+Proof.
+  unfold Inv, dom. simpl. repeat split; try constructor; intros; contradiction.
+Qed.
+
+Lemma walk_fields_ok f old fuel fl w w' fs :
+  Inv f old w -> walk_fields fuel f old fl w = Some (w', fs) ->
+  Inv f old w' /\ Ext w w' /\ Forall2 (ref_ok w') fl fs.
+Proof.
+  intros Hi H. unfold walk_fields in H.
+  destruct (walk_list_ok f old [] _ (walk_ok f old fuel []) fl w w' fs Hi H) as [A [B [C _]]].
+  split; [exact A|]. split; [exact B|exact C].
+Qed.
+
+Lemma NoDup_fst_functional A B (l : list (A * B)) a b1 b2 :
+  NoDup (map fst l) -> In (a, b1) l -> In (a, b2) l -> b1 = b2.
+Proof.
+  induction l as [|[x y] l IH]; simpl; [tauto|]. intros Hn H1 H2. inversion Hn; subst.
+  destruct H1 as [H1|H1], H2 as [H2|H2].
+  - congruence.
+  - inversion H1; subst. exfalso. apply H3. apply in_map_iff. now exists (a, b2).
+  - inversion H2; subst. exfalso. apply H3. apply in_map_iff. now exists (a, b1).
+  - now apply IH.
+Qed.
+
+Lemma NoDup_snd_injective A B (l : list (A * B)) a1 a2 b :
+  NoDup (map snd l) -> In (a1, b) l -> In (a2, b) l -> a1 = a2.
+Proof.
+  induction l as [|[x y] l IH]; simpl; [tauto|]. intros Hn H1 H2. inversion Hn; subst.
+  destruct H1 as [H1|H1], H2 as [H2|H2].
+  - congruence.
+  - inversion H1; subst. exfalso. apply H3. apply in_map_iff. now exists (a2, b).
+  - inversion H2; subst. exfalso. apply H3. apply in_map_iff. now exists (a1, b).
+  - now apply IH.
+Qed.
+
+Lemma In_NoDup_lookup A k (v : A) l : NoDup (map fst l) -> In (k, v) l -> lookup k l = Some v.
+Proof.
+  induction l as [|[k' v'] l IH]; simpl; [tauto|]. intros Hn [H|H]; inversion Hn; subst.
+  - inversion H; subst. now rewrite Nat.eqb_refl.
+  - destruct (Nat.eqb k k') eqn:E; [|now apply IH].
+    apply Nat.eqb_eq in E. subst. exfalso. apply H2. apply in_map_iff. now exists (k', v).
+Qed.
+
+(* Dataset.subset / sort as the code performs it, with the memo: every object reached from a field is transformed
+   exactly once, and whatever named one object before names one object afterwards *)
+Lemma shared_reference_once_l d ix d' :
+  subset_walk d ix = Some d' ->
+  num_obs d' = length ix /\ rowids d' = take 0%Z ix (rowids d) /\
+  exists memo : list (nat * nat),
+    Forall2 (fun pf qf => fst qf = fst pf /\ In (snd pf, snd qf) memo) (fields d) (fields d') /\
+    (forall o n1 n2, In (o, n1) memo -> In (o, n2) memo -> n1 = n2) /\
+    (forall o1 o2 n, In (o1, n) memo -> In (o2, n) memo -> o1 = o2) /\
+    NoDup (map fst (store d')) /\
+    (forall o n, In (o, n) memo ->
+       exists ob rs, lookup o (store d) = Some ob /\
+                     lookup n (store d') = Some (set_refs (take_obj ix ob) rs) /\
+                     Forall2 (fun ar r => fst r = fst ar /\ In (snd ar, snd r) memo) (orefs ob) rs).
+Proof.
+  unfold subset_walk. intro H.
+  destruct (walk_fields (S (length (store d))) (take_obj ix) (store d) (fields d) (mkW [] [] (next d)))
+    as [[w fs]|] eqn:E; [|discriminate].
+  inversion H; subst; clear H. simpl. split; [reflexivity|]. split; [reflexivity|].
+  destruct (walk_fields_ok _ _ _ _ _ _ _ (Inv_init (take_obj ix) (store d) (next d)) E) as [Hi [_ Hf]].
+  destruct Hi as [N1 [_ [_ [N2 [N3 C]]]]].
+  exists (wmemo w). split; [exact Hf|]. split.
+  - intros o n1 n2. now apply NoDup_fst_functional.
+  - split; [intros o1 o2 n; now apply NoDup_snd_injective|]. split; [exact N3|].
+    intros o n Hin. destruct (C _ _ Hin) as [ob [rs [L1 [L2 L3]]]]. exists ob, rs.
+    split; [assumption|]. split; [now apply In_NoDup_lookup|exact L3].
+Qed.
+
+(* the early return of append_empty(0) loses sharing; looking the field up in the memo keeps it *)
+Definition w_sharing : dset :=
+  build [New 2 0%Z;
+         Add "sat" KPos false 1 None [PNum [Dy 1 0; Dy 1 0; Dy 1 0]; PNum [Dy 1 1; Dy 1 1; Dy 1 1]] [];
+         Add "site" KPos false 1 None [PNum [Dy 3 0; Dy 3 0; Dy 3 0]; PNum [Dy 5 0; Dy 5 0; Dy 5 0]] [("other", TField "sat")]].
+
+Lemma sharing_lost_refuted :
+  ref_is_field w_sharing "site" "other" "sat" = true /\
+  (exists d, extend_empty_walk true w_sharing ["site"] = Some d /\ ref_is_field d "site" "other" "sat" = false) /\
+  (exists d, extend_empty_walk false w_sharing ["site"] = Some d /\ ref_is_field d "site" "other" "sat" = true).
+Proof. split; [vm_compute; reflexivity|]. split; eexists; split; vm_compute; reflexivity. Qed.
